@@ -220,6 +220,9 @@ class EvalMixin(object):
             return st.env[node.id]
         if node.id in self.builtins:
             return self.builtins[node.id]
+        if self.in_contract and node.id in self.unit.prebind:
+            st.env[node.id] = self.make_value(self.unit.prebind[node.id], st, node.id)   # unbound yet: arbitrary
+            return st.env[node.id]
         raise OutOfSubset("name %r is not bound on this path" % node.id, node)
 
     def ev_JoinedStr(self, node, st):
@@ -392,10 +395,9 @@ class EvalMixin(object):
             return la
         if la.ek != lb.ek:
             raise OutOfSubset("list + of different kinds")
-        arr = z3.Array(fresh_name("cat"), IntS, SORTS[la.ek])
+        i = z3.Int(fresh_name("li"))
+        arr = z3.Lambda([i], z3.If(i < la.n, z3.Select(la.arr, i), z3.Select(lb.arr, i - la.n)))
         n = la.n + lb.n
-        st.qf.append(QFact(z3.IntVal(0), la.n, lambda i, arr=arr, la=la: z3.Select(arr, i) == z3.Select(la.arr, i), "concat-left"))
-        st.qf.append(QFact(z3.IntVal(0), lb.n, lambda i, arr=arr, la=la, lb=lb: z3.Select(arr, la.n + i) == z3.Select(lb.arr, i), "concat-right"))
         return HList(la.ek, n, arr)
 
     def rep(self, s, n, st):
@@ -563,6 +565,8 @@ class EvalMixin(object):
                 return r
             if isinstance(cell, HObj) and cell.cls == "Scope":
                 return self.scope_contains(cell, x, st, node)
+            if isinstance(cell, HObj) and cell.cls == "Tree":
+                return z3.Bool(fresh_name("tree_has"))
         raise OutOfSubset("`in` on %r" % (cont,), node)
 
     # ------------------------------------------------------------------ subscripts, attributes
@@ -581,6 +585,9 @@ class EvalMixin(object):
         return self.getitem(base, idx, st, node)
 
     def getitem(self, base, idx, st, node):
+        if isinstance(base, VOpt):
+            self.safety(st, "TypeError", z3.Not(base.isnone), node, "subscript of None")
+            base = base.val
         if isinstance(base, VStr):
             if not isinstance(idx, VInt):
                 raise OutOfSubset("str index %r" % (idx,), node)
@@ -640,7 +647,13 @@ class EvalMixin(object):
             raise OutOfSubset("dict key %r" % (key,), node)
         if strict:
             self.safety(st, "KeyError", z3.Select(cell.keys, key.e), node, "dictionary key may be absent")
-        return wrap(cell.ek, z3.Select(cell.vals, key.e))
+        return self.materialise(wrap(cell.ek, z3.Select(cell.vals, key.e)), st)
+
+    def materialise(self, v, st):
+        if isinstance(v, VSList):
+            st.assume(SL_LEN(v.e) >= 0)
+            return st.alloc(HList("str", SL_LEN(v.e), SL_ARR(v.e)))
+        return v
 
     def do_slice(self, base, sl, st, node):
         if sl.step is not None:
@@ -665,8 +678,8 @@ class EvalMixin(object):
             cell = self.as_hlist(cell)
             l, h = self.clamp(lo, cell.n, 0), self.clamp(hi, cell.n, None)
             ln = z3.simplify(z3.If(h - l > 0, h - l, 0))
-            arr = z3.Array(fresh_name("slice"), IntS, SORTS[cell.ek])
-            st.qf.append(QFact(z3.IntVal(0), ln, lambda i, arr=arr, cell=cell, l=l: z3.Select(arr, i) == z3.Select(cell.arr, l + i), "slice"))
+            i = z3.Int(fresh_name("li"))
+            arr = z3.Lambda([i], z3.Select(cell.arr, l + i))
             return st.alloc(HList(cell.ek, ln, arr))
         raise OutOfSubset("slice of %r" % (base,), node)
 
